@@ -17,7 +17,8 @@ func init() {
 		Explanation: "C37.a DECIDE+ORD: Uploader.upload is interpreted for all valuations of {index read ok, index vs last uploaded, temp file ok, provide ok, first upload, remote id read ok, remote id equals label, seek ok, upload ok}: the applied index is read before the data is produced, the skip branch is exactly index <= lastIndex, the same index value (SSA identity) labels the upload, and lastIndex is assigned that value only after Upload returned nil. " +
 			"C37.b TABLE: in Store.Backup's direct-copy path the pre-backup snapshot's error is tolerated only for the reference reasons {ErrNothingNewToSnapshot, 'wait until the configuration entry at'}; any other tolerated error (continuing to copy a main file that lacks WAL contents) is reported; the database file is opened only after the snapshot step and with the snapshot gate held. " +
 			"C37.c WHO: Provider.LastIndex returns Store.DBAppliedIndex, and dbAppliedIdx is stored only by the apply path (on a mutating entry, with the entry's index), restore, and open. " +
-			"C37.d ORD: the file storage client renames the metadata file that carries the backup ID (what CurrentID reports, and what makes the uploader skip a round) into place only on the success edge of the data file's rename.",
+			"C37.d ORD: the file storage client renames the metadata file that carries the backup ID (what CurrentID reports, and what makes the uploader skip a round) into place only on the success edge of the data file's rename. " +
+			"C37.e CONST: Store.Backup fills the *os.File it is given — it never renames another file over that file's path (the uploader reads back through its own descriptor).",
 		NotCovered: []string{"contents of the uploaded object", "behaviour of the S3 and GCS clients and services"},
 		Run:        runC37,
 	})
@@ -25,6 +26,7 @@ func init() {
 
 func runC37(c *core.Ctx) {
 	c37d(c)
+	c37e(c)
 	if fn := c.Fn("C37.a", "auto/backup", "(*Uploader).upload"); fn != nil {
 		var liCall ssa.Value
 		for _, call := range an.CallsTo(fn, false, "auto/backup.DataProvider.LastIndex") {
